@@ -59,7 +59,6 @@ def gate(kind):
             else:
                 end = hdr['len']
                 text = L.slice_(buf, 1, end - 2)          # hex text of unit + PDU
-                body = CK.unhex(text)
                 E.prove('gate:ascii:colon...CRLF-envelope', L.And(L.at(buf, 0) == 0x3A, end >= 5, end + 1 < n, L.at(buf, end) == 0x0D, L.at(buf, end + 1) == 0x0A))
                 E.prove('gate:ascii:even-number-of-hex-characters', (end - 3) % 2 == 0)
                 E.prove_forall('gate:ascii:every-character-of-unit+pdu-is-a-hex-digit', 0, end - 3, lambda k: CK.hexval(L.at(text, k)) >= 0)
@@ -68,6 +67,9 @@ def gate(kind):
                 E.prove('gate:ascii:delivered-pdu-is-the-decoded-text:length', L.length(pdu) == (end - 5) // 2)
                 E.prove_forall('gate:ascii:delivered-pdu-is-the-decoded-text', 0, (end - 5) // 2,
                                lambda k: L.at(pdu, k) == CK.hexval(L.at(buf, 3 + 2 * k)) * 16 + CK.hexval(L.at(buf, 4 + 2 * k)))
+                if E.mode != 'symbolic' and not (L.truth(CK.all_hex(text)) and (end - 3) % 2 == 0):
+                    return                                # already reported above; the text denotes no bytes whose LRC could be taken
+                body = CK.unhex(text)
                 E.prove('gate:ascii:lrc-of-the-decoded-bytes-matches', CK.lrc(E, body) == CK.hexval(L.at(buf, end - 2)) * 16 + CK.hexval(L.at(buf, end - 1)),
                         finding='C07-F2', region=L.Not(lrc_hex))
                 return
